@@ -89,6 +89,12 @@ MeshTargetCases(u) ==
      s \in MeshSrc, su \in {"struct", "upoints"}, sm \in BOOLEAN, tm \in BOOLEAN} \cup
   {[kind |-> "linear", src |-> s, dst |-> MeshLayout, su |-> "upoints", tu |-> "umixed", sm |-> sm, tm |-> FALSE, fill |-> f] :
      s \in MeshSrc, sm \in BOOLEAN, f \in BOOLEAN}
+(* three-dimensional grids with two cell layers along z, as structured grid and as its unstructured cast *)
+Src3D == {L \in Layouts({"uniform"}, {<<2, 2, 3>>, <<3, 2, 3>>}) : L.order = "F" /\ ~L.rev /\ L.inc = <<TRUE, TRUE, TRUE>> /\ L.loc = "cells"}
+Dst3D == {L \in Layouts({"uniform"}, {<<2, 2, 3>>, <<3, 2, 3>>}) : L.order = "C" /\ ~L.rev /\ L.inc = <<TRUE, TRUE, TRUE>>}
+Near3D(u) ==
+  {[kind |-> "nearest", src |-> s, dst |-> d, su |-> su, tu |-> tu, sm |-> sm, tm |-> FALSE, fill |-> FALSE] :
+     s \in Src3D, d \in Dst3D, su \in {"struct", "unstr"}, tu \in {"struct", "unstr"}, sm \in BOOLEAN}
 (* identity between layouts of one grid *)
 IdentityCases(u) ==
   {[kind |-> "nearest", src |-> s, dst |-> d, su |-> "struct", tu |-> "struct", sm |-> FALSE, tm |-> FALSE, fill |-> FALSE] :
